@@ -51,6 +51,9 @@ CHECKS = {
   'C17': dict(category='other', technique='symbolic execution of the traced interpolation routines (scan-based searchsorted, clamped dynamic_slice/gather, masks) to z3 terms with symbolic query point, data (and nodes for n<=3) + QF_LRA atom specialisation + QF_NRA queries',
               text='For ALL query points and data (concrete uneven node sets up to 6 nodes; symbolic nodes for n<=3): value at nodes, agreement with the reference piecewise-linear interpolant, neighbour bounds, exactness on affine data, documented extrapolation (constant / unlimited linear / n cells then missing), equality of the two interp code paths, sigma<->pressure on affine columns for all surface pressures, surface-pressure equation, column-wise wrappers; bilinear/nearest regridding constants and identity.',
               design='§3 C17'),
+  'C20': dict(category='other', technique='symbolic execution of the traced forcing code to z3 terms (sin/cos/exp uninterpreted with instantiated axioms, floor via to_int) + QF_UFNRA/QF_NRA/QF_LIRA queries with lemma decomposition and cut points; real numpy code on symbolic duck arrays; polynomial identities with atoms',
+              text='Radiation: for ALL phases, positions and solar constants: |sin altitude|<=1, irradiance bounds, 0 <= flux <= S+dS, flux = 0 iff sun not above horizon, normalised flux in [0,1], 2pi-periodicity in both phases; orbital phases in [0,2pi) and congruent to elapsed time. Held-Suarez: friction/relaxation rates for ALL sigma levels and parameters (non-negative, zero above the boundary layer), linear drag law, temperature relaxation affine in T and independent of wind, no surface-pressure tendency, equilibrium floor.',
+              design='§3 C20'),
   'C13': dict(category='other', technique='symbolic execution of the traced jaxpr + QF_LRA queries (monomial abstraction for bilinear clauses)',
               text='Bounded symbolic verification of the sigma calculus identities for ALL column data and vertical velocities on each enumerated level set (even, dyadic uneven, seeded random), axis and shape.',
               design='§3 C13'),
